@@ -215,7 +215,7 @@ def random_ops(r, spec, n, with_reset):
 
 
 def random_sequences(run, r):
-    n = run.scale(2500, 200000)
+    n = run.scale(2500, 800000)
     for i in range(n):
         spec = random_block_spec(r)
         ops = random_ops(r, spec, 60, with_reset=True)
@@ -275,7 +275,7 @@ def slave_context_case(run, case):
 
 
 def slave_contexts(run, r):
-    n = run.scale(1500, 60000)
+    n = run.scale(1500, 240000)
     for i in range(n):
         layout = {}
         for t in 'dcih':
@@ -413,7 +413,7 @@ def server_context_case(run, case):
 
 def server_contexts(run, r):
     ids = list(range(-1, 258)) + [300, 0xFFFF]
-    n = run.scale(1500, 40000)
+    n = run.scale(1500, 160000)
     for i in range(n):
         single = i % 3 == 0
         initial = {} if single else {r.choice([0, 1, 2, 17, 100, 246, 247]): j + 1 for j in range(r.randint(0, 3))}
